@@ -245,6 +245,16 @@ def call_builtin(ex, e, st, name, desc):
     if name == 'isinstance' and len(e.args) == 2:
         a0 = ex.ev(e.args[0], st)
         return val(st, V(S.mk_bool(isinstance_formula(ex, a0, e.args[1], st)), S.Bool))
+    if name == 'hasattr' and len(e.args) == 2 and isinstance(e.args[1], ast.Constant) and e.args[1].value == '__iter__':
+        # str, tuple, list, dict, set have __iter__; int, bool, None, float do not; other classes: an uninterpreted predicate of the dynamic class
+        a0 = ex.ev(e.args[0], st)
+        x = a0.t
+        cont = z3.Or(*[S.tyof(S.addr(x)) == S.type_id(n) for n in ('list', 'dict', 'set')])
+        hi = z3.Function('class_has_iter', z3.IntSort(), z3.BoolSort())
+        f = z3.If(z3.Or(S.is_str(x), S.is_tup(x)), z3.BoolVal(True), z3.If(S.is_ref(x), z3.Or(cont, hi(S.tyof(S.addr(x)))),
+                                                                            z3.If(z3.Or(S.is_int(x), S.is_bool(x), S.is_none(x), S.is_flt(x)), z3.BoolVal(False),
+                                                                                  z3.Function('value_has_iter', S.PyObj(), z3.BoolSort())(x))))
+        return val(st, V(S.mk_bool(f), S.Bool))
     args, kwargs = eval_args(ex, e, st)
     if name == 'len' and len(args) == 1:
         return val(st, builtin_len(ex, args[0], st, desc))
